@@ -211,6 +211,9 @@ def main():
             else:
                 bviol.append(v)
 
+    # replay files describe THIS run only: what an earlier run (e.g. on a seeded copy) left behind is removed first
+    import shutil
+    shutil.rmtree(os.path.join(HERE, "replays", pid), ignore_errors=True)
     os.makedirs(os.path.join(HERE, "replays", pid), exist_ok=True)
     out_lines = []
     for name, hit in known_hits:
